@@ -97,7 +97,7 @@ impl CaseEngine for C05 {
     fn case_timeout_s(&self, _args: &Args) -> u64 {
         300
     }
-    fn run_case(&self, args: &Args, case: usize, rep: &mut Report, _p: &dyn Fn(&str)) {
+    fn run_case(&self, args: &Args, case: usize, rep: &mut Report, progress: &dyn Fn(&str)) {
         let seed = derive(args.u64("seed", 1), &[tag("C05"), case as u64]);
         let scratch = args.str("scratch", "/verif/scratch/c05");
         let dir = vcore::scratch_dir(&scratch, &format!("c{case}"));
@@ -121,6 +121,7 @@ impl CaseEngine for C05 {
             let is_mem = |k: &str| k.contains("memory");
             let mut n_file = 0;
             for step in 0..steps_n {
+                progress(&format!("maintenance step {step}"));
                 let op = rng.below(11);
                 let name;
                 let mut new_d0 = None;
@@ -305,7 +306,7 @@ impl CaseEngine for C06 {
     fn case_timeout_s(&self, _args: &Args) -> u64 {
         300
     }
-    fn run_case(&self, args: &Args, case: usize, rep: &mut Report, _p: &dyn Fn(&str)) {
+    fn run_case(&self, args: &Args, case: usize, rep: &mut Report, progress: &dyn Fn(&str)) {
         let seed = derive(args.u64("seed", 1), &[tag("C06"), case as u64]);
         let scratch = args.str("scratch", "/verif/scratch/c06");
         let dir = vcore::scratch_dir(&scratch, &format!("c{case}"));
@@ -333,6 +334,7 @@ impl CaseEngine for C06 {
                 Ok(())
             };
             for step in 0..len {
+                progress(&format!("step {step}"));
                 let mut q = g.next(&model);
                 if huge && step % 9 == 4 {
                     if let Some(n) = model.nodes().first().copied() {
